@@ -307,12 +307,64 @@ func uncheckedUses(call *ssa.Call) (errVal ssa.Value, bad []ssa.Instruction, dro
 				}
 				continue
 			}
-			if !knownNilAt(errVal, u.Block()) && !errReturnedWith(errVal, u) {
+			if !knownNilAt(errVal, u.Block()) && !errReturnedWith(errVal, u) && !storedIntoObjectDroppedOnError(errVal, call.Block(), u, o) {
 				bad = append(bad, u)
 			}
 		}
 	}
 	return errVal, bad, false
+}
+
+// storedIntoObjectDroppedOnError: `obj.field, err = parse(s)` — the result is
+// stored into a field of an object allocated in this function before the
+// error is tested. That is no use of the value as long as the object leaves
+// the function (returned, passed on, stored) and the field is read only where
+// the error is known to be nil: on failure the object is dropped.
+func storedIntoObjectDroppedOnError(errVal ssa.Value, callBlock *ssa.BasicBlock, u ssa.Instruction, val ssa.Value) bool {
+	safeAt := func(b *ssa.BasicBlock) bool {
+		return knownNilAt(errVal, b) || failureCannotReach(errVal, callBlock, b)
+	}
+	st, ok := u.(*ssa.Store)
+	if !ok || st.Val != val {
+		return false
+	}
+	fa, ok := st.Addr.(*ssa.FieldAddr)
+	if !ok {
+		return false
+	}
+	al, ok := fa.X.(*ssa.Alloc)
+	if !ok {
+		return false
+	}
+	for _, ref := range refsOf(al) {
+		switch x := ref.(type) {
+		case *ssa.DebugRef:
+		case *ssa.FieldAddr:
+			for _, r2 := range refsOf(x) {
+				switch y := r2.(type) {
+				case *ssa.Store:
+					if y.Addr != ssa.Value(x) {
+						return false // the field's address stored somewhere
+					}
+				case *ssa.UnOp:
+					if x.Field == fa.Field && !safeAt(y.Block()) {
+						return false // the field is read where the parse may have failed
+					}
+				case *ssa.DebugRef:
+				default:
+					if x.Field == fa.Field {
+						return false
+					}
+				}
+			}
+		default:
+			// the object itself leaves the function here
+			if !safeAt(ref.Block()) {
+				return false
+			}
+		}
+	}
+	return true
 }
 
 // errTests lists the If blocks testing v against nil, with the successor
@@ -464,6 +516,22 @@ func harmlessOnError(call *ssa.Call) (bool, string) {
 					}
 				case *ssa.Call:
 					n := calleeName(x.Common())
+					// a helper of the library that itself only compares the
+					// value with constants
+					if callee := x.Common().StaticCallee(); callee != nil && inLib(callee) && len(callee.Blocks) > 0 {
+						okAll := true
+						for i, a := range x.Common().Args {
+							if a == v && i < len(callee.Params) {
+								if !only(callee.Params[i], depth+1) {
+									okAll = false
+								}
+							}
+						}
+						if okAll {
+							continue
+						}
+						return false
+					}
 					okp := n == "strings.HasPrefix" || n == "strings.HasSuffix" || n == "strings.EqualFold" || n == "strings.Contains"
 					if !okp || len(x.Common().Args) != 2 {
 						return false
